@@ -209,6 +209,39 @@ def main(rep):
     for i in range(max(20, n // 10)):
         t, m = gen_policy_change_case(rng)
         cases.append(("p%d" % i, t, m))
+    # a member of a project whose source is gone / unreadable / a directory when its turn comes: dropped and reported
+    # like any other file, nothing left in the store or in the project's tree of links, the pass goes on
+    for i in range(max(9, n // 25)):
+        s = wc.Script()
+        wc.setup_world(s, wc.base_cfg(deb=0))
+        s.start()
+        s.exec(3, wc.X + "/vim")
+        root = rng.choice([wc.WATCH + "/proj", wc.WATCH + "/pp/p1"])
+        M, K = root + "/other/dir/gone%d.c" % i, root + "/keep.c"
+        if rng.random() < 0.5:
+            s.put(K, "kept")
+            s.write(3, K)
+            s.tick(1)
+            s.timeout()
+        s.put(M, "soon gone")
+        s.write(3, M)
+        s.put(wc.WATCH + "/n", "bystander")
+        s.write(3, wc.WATCH + "/n")
+        how = i % 3
+        if how == 0:
+            s.rm(M)
+        elif how == 1:
+            s.rm(M)
+            s.mkdirp(M)
+        else:
+            s.chmod(M, False)
+        s.tick(1)
+        s.dump()
+        s.timeout()
+        s.dump()
+        if how == 2:
+            s.chmod(M, True)
+        cases.append(("pm%d" % i, s.text(), {"journal_counts": False}))
     wk.standard_main(rep, cases=cases, monitors=MON, extra=extra_phases,
                      rule=("three files per history with sizes from {0,1,2,4095,4096,4097,12345,70000}, sendfile chunk limits {none,1000,4095,4096,4097,65536}, "
                            "and between the write and the copy: nothing, rewritten, grown, deleted, replaced by a directory, made unreadable (real EACCES: the "
